@@ -279,8 +279,12 @@ def _driver(case):
                 np.asarray([25.0 * (-1) ** (i + 1) for i in idx]), np.asarray([10.0 + i for i in idx], float),
                 np.asarray([-1e3 * (i + 1) for i in idx], float),
             ]
-            for tol in ((1e-3, 1e-6) if x64 else (1e-2, 1e-4)):
-                inv = AutoregressiveBisectionInverter(tol=tol)
+            for tol in ((1e-3, 1e-6, "int-bounds") if x64 else (1e-2, 1e-4, "int-bounds")):
+                if tol == "int-bounds":  # Python-int bounds are accepted by the constructor (converter=jnp.asarray)
+                    tol = 1e-3 if x64 else 1e-2
+                    inv = AutoregressiveBisectionInverter(lower=-10, upper=10, tol=tol)
+                else:
+                    inv = AutoregressiveBisectionInverter(tol=tol)
                 solve = jax.jit(lambda y: inv(T(), y))
                 for xi, xstar in enumerate(xs):
                     xstar = jnp.asarray(xstar, dtype)
